@@ -9,7 +9,7 @@ from vf.core import CaseResult, dtype_mode
 PROPERTY = "C17"
 RULE = ("A domain-restricted transform (Exp/Tanh/Sigmoid inverses, Logit, CauchyCDF inverse, the four spline families through "
         "the function API with generated boxes, the unconstrained_* forms and CDF classes with tail bounds 1e-3..1e4, piecewise "
-        "coupling / autoregressive wrappers) in one direction, float32 or float64, on a batch (1-5 rows x 1-3 features) of valid "
+        "coupling / autoregressive wrappers) in one direction, in training or evaluation mode, bare or as the only part of a composite, float32 or float64, on a batch (1-5 rows x 1-3 features) of valid "
         "elements in which ONE element (any position) is placed exactly on a boundary, 1/2/8 ulp inside, 1/2/8 ulp outside or "
         "far outside. Oracle: outside (by the transform's own domain for that direction, open/closed as documented) => "
         "raises InputOutsideDomain (exact type); otherwise no exception and all outputs finite. Non-trivial: the probe is "
@@ -34,7 +34,8 @@ def _case(draw):
     c = {"kind": kind, "precise": draw(st.booleans()), "rows": draw(st.integers(1, 5)), "feats": draw(st.integers(1, 3)),
          "place": draw(st.sampled_from(PLACEMENTS)), "side": draw(st.sampled_from(["lo", "hi"])),
          "pos": draw(st.integers(0, 14)), "seed": draw(st.integers(0, 10 ** 6)),
-         "regime": draw(st.sampled_from(["fresh", "zero", "small", "moderate", "nonuniform", "flatbin"]))}
+         "regime": draw(st.sampled_from(["fresh", "zero", "small", "moderate", "nonuniform", "flatbin"])),
+         "eval": draw(st.booleans()), "nested": draw(st.booleans())}
     if kind in ("fn", "fn_tails", "cdf", "cdf_tails", "coupling", "ar"):
         c["fam"] = draw(st.sampled_from(["lin", "quad", "cub", "rq"]))
         c["bins"] = draw(st.integers(1, 6))
@@ -48,6 +49,7 @@ def _case(draw):
         if c["tails"]:
             c["tb"] = draw(st.sampled_from([1.0, 0.1, 0.3, 3.0, 40.0, 1e3]))
         c["feats"] = max(2, c["feats"])
+        c["uncond"] = draw(st.booleans()) if kind == "coupling" else False
         if kind == "ar" and c["fam"] in ("lin", "cub"):
             c["tails"] = False
             c.pop("tb", None)
@@ -86,20 +88,26 @@ def run_case(case):
         lo_open = hi_open = False
         unbounded = False
         probe_feats = list(range(feats))
+        def moded(mod, use_inverse):
+            # the domain does not depend on training / evaluation mode, nor on being a part of a composite
+            top = T.CompositeTransform([mod]) if case.get("nested") else mod
+            top.train(not case.get("eval", False))
+            return top.inverse if use_inverse else top.forward
+
         if kind == "exp_inv":
-            call = T.Exp().inverse
+            call = moded(T.Exp(), True)
             lo, hi, lo_open = 0.0, float("inf"), True
         elif kind == "tanh_inv":
-            call = T.Tanh().inverse
+            call = moded(T.Tanh(), True)
             lo, hi, lo_open, hi_open = -1.0, 1.0, True, True
         elif kind == "sigmoid_inv":
-            call = T.Sigmoid(temperature=case.get("temp", 1.0)).inverse
+            call = moded(T.Sigmoid(temperature=case.get("temp", 1.0)), True)
             lo, hi = 0.0, 1.0
         elif kind == "logit":
-            call = T.Logit(temperature=case.get("temp", 1.0)).forward
+            call = moded(T.Logit(temperature=case.get("temp", 1.0)), False)
             lo, hi = 0.0, 1.0
         elif kind == "cauchy_inv":
-            call = NL.CauchyCDF().inverse
+            call = moded(NL.CauchyCDF(), True)
             lo, hi = 0.0, 1.0
         else:
             fam, K = case["fam"], case["bins"]
@@ -112,10 +120,11 @@ def run_case(case):
             elif kind == "coupling":
                 mask = [1 if i % 2 == 0 else 0 for i in range(feats)]
                 spec = {"t": "c_" + fam, "mask": mask, "bins": K, "tails": "linear" if case["tails"] else None, "tb": case.get("tb", 1.0),
-                        "hidden": 4, "blocks": 1, "act": "relu"}
+                        "hidden": 4, "blocks": 1, "act": "relu", "uncond": bool(case.get("uncond"))}
                 bw = zoo.watch_conditioners(zoo.build(spec, [feats]))
                 m = bw.module
-                probe_feats = [i for i in range(feats) if mask[i] > 0]
+                # with an unconditional transform the identity features pass through a spline of the same box / tails too
+                probe_feats = list(range(feats)) if case.get("uncond") else [i for i in range(feats) if mask[i] > 0]
             else:
                 spec = {"t": "ar_" + fam, "bins": K, "tails": "linear" if case.get("tails") else None, "tb": case.get("tb", 1.0),
                         "hidden": max(4, feats), "blocks": 1, "act": "relu", "seed": case["seed"]}
@@ -123,7 +132,9 @@ def run_case(case):
                 m = bw.module
             if case["regime"] != "fresh":
                 zoo.apply_regime(m, case["regime"], case["seed"])
-            m.eval()
+            m.eval()     # (conditioner networks stay in evaluation mode: no batch statistics; the transform's own mode is drawn)
+            if kind in ("fn", "fn_tails", "cdf", "cdf_tails"):
+                m.train(not case.get("eval", True))
             call = m.inverse if inverse else m.forward
             if case.get("tb") is not None and kind != "fn" and (kind in ("fn_tails", "cdf_tails") or case.get("tails")):
                 unbounded = True
